@@ -570,6 +570,7 @@ class Node(object):
             individual_to_preempt.time_left = individual_to_preempt.service_end_date - self.now
             individual_to_preempt.service_time = self.priority_preempt
             individual_to_preempt.service_end_date = False
+            individual_to_preempt.reneging_date = float("Inf")
             self.detatch_server(server, individual_to_preempt)
             self.decide_class_change(individual_to_preempt)
         self.attach_server(server, next_individual)
